@@ -39,6 +39,8 @@ def run(tier):
             r10.maywrite(chk, 'C14.D2', prog, eff, p + 'gstrs', dict(ro, B=['->Store->nzval']), cfgname)
             c01.gstrs_oracle(chk, prog, eff, p, cfgname)
         kernels.run_basic(chk, 'C14.kern', prog, cfgname, ('trsv', 'gemv', 'solve'), floor_scratch=8, floor_cursor=10)
+        chk.clause('C14.kern.const', 'locals that stand for constants are not also used as scratch')
+        kernels.constant_names_rule(chk, 'C14.kern.const', prog, cfgname)
         chk.clause('C14.kern.sweep', 'sp_?trsv solves every supernode; sp_?gemv assigns zero for beta = 0')
         for p in _drv.PRECS:
             kernels.supernode_sweep_rule(chk, 'C14.kern.sweep', prog, p, cfgname)
